@@ -18,57 +18,87 @@ func (p *Prog) coinParts(coins ssa.Value) (amts []ssa.Value, denoms []ssa.Value)
 	seen := map[ssa.Value]bool{}
 	var rec func(v ssa.Value, d int)
 	rec = func(v ssa.Value, d int) {
-		if v == nil || seen[v] || d > 8 {
+		if v == nil || seen[v] || d > 10 {
 			return
 		}
 		seen[v] = true
-		for _, o := range p.Origins(v) {
-			if o.Kind == "call" && len(o.Path) == 0 || (o.Kind == "call" && len(o.Path) == 1 && o.Path[0] == "[]") {
-				sc := o.Call.Call.StaticCallee()
-				name := ""
-				if sc != nil {
-					name = sc.Name()
+		switch x := v.(type) {
+		case *ssa.Call:
+			name := calleeShortName(&x.Call)
+			full := calleeFullName(&x.Call)
+			args := callArgs(x)
+			switch {
+			case name == "NewCoins":
+				for _, a := range x.Call.Args {
+					rec(a, d+1)
 				}
-				args := callArgs(o.Call)
-				switch {
-				case name == "NewCoins":
-					for _, a := range o.Call.Call.Args {
-						rec(a, d+1)
+				return
+			case (name == "NewCoin" || name == "NewInt64Coin") && len(x.Call.Args) == 2:
+				denoms = append(denoms, x.Call.Args[0])
+				amts = append(amts, x.Call.Args[1])
+				return
+			case name == "ReturnCoin" && len(args) == 3:
+				amts = append(amts, args[2])
+				return
+			case name == "Sort" && strings.Contains(full, "types.Coins") && len(x.Call.Args) == 1:
+				rec(x.Call.Args[0], d+1)
+				return
+			}
+			amts = append(amts, v)
+		case *ssa.Slice:
+			rec(x.X, d+1)
+		case *ssa.Alloc:
+			// array backing a variadic / composite literal: its element stores
+			n := 0
+			for _, ref := range *x.Referrers() {
+				if ia, ok := ref.(*ssa.IndexAddr); ok && ia.Referrers() != nil {
+					for _, r2 := range *ia.Referrers() {
+						if st, ok := r2.(*ssa.Store); ok && st.Addr == ia {
+							n++
+							rec(st.Val, d+1)
+						}
 					}
-					continue
-				case name == "NewCoin" && len(o.Call.Call.Args) == 2:
-					denoms = append(denoms, o.Call.Call.Args[0])
-					amts = append(amts, o.Call.Call.Args[1])
-					continue
-				case name == "NewInt64Coin" && len(o.Call.Call.Args) == 2:
-					denoms = append(denoms, o.Call.Call.Args[0])
-					amts = append(amts, o.Call.Call.Args[1])
-					continue
-				case name == "ReturnCoin" && len(args) == 3:
-					amts = append(amts, args[2])
-					continue
-				case (name == "Add" || name == "Sub") && sc != nil && strings.Contains(fullName(sc), "types.Coin"):
-					// coin arithmetic: the result is its own amount
-					amts = append(amts, o.Val)
-					continue
 				}
 			}
-			if o.Kind == "alloc" && len(o.Path) == 0 {
-				continue
+			if n == 0 {
+				amts = append(amts, v)
 			}
-			// not constructed here: the coin value itself stands for its amount
-			amts = append(amts, originValue(o, v))
+		case *ssa.Phi:
+			for _, e := range x.Edges {
+				rec(e, d+1)
+			}
+		case *ssa.ChangeType:
+			rec(x.X, d+1)
+		case *ssa.MakeInterface:
+			rec(x.X, d+1)
+		case *ssa.UnOp:
+			if x.Op == token.MUL {
+				if a, ok := x.X.(*ssa.Alloc); ok {
+					// a local Coin variable: its Amount field as it reaches this load
+					isCoin := strings.HasSuffix(a.Type().(*types.Pointer).Elem().String(), "types.Coin")
+					path := []string(nil)
+					if isCoin {
+						path = []string{"Amount"}
+					}
+					if defs, entry := reachingStores(a, path, x); !entry && len(defs) > 0 {
+						for _, dd := range defs {
+							if dd.whole {
+								rec(dd.st.Val, d+1)
+							} else {
+								amts = append(amts, dd.st.Val) // coin.Amount = X
+							}
+						}
+						return
+					}
+				}
+			}
+			amts = append(amts, v)
+		default:
+			amts = append(amts, v)
 		}
 	}
 	rec(coins, 0)
 	return
-}
-
-func originValue(o Origin, fallback ssa.Value) ssa.Value {
-	if len(o.Path) == 0 && o.Val != nil {
-		return o.Val
-	}
-	return fallback
 }
 
 // ExprKey gives a canonical key of the expression computing v, such that two values with
@@ -198,7 +228,12 @@ func (p *Prog) amountKeys(coins ssa.Value) []string {
 	amts, _ := p.coinParts(coins)
 	set := map[string]bool{}
 	for _, a := range amts {
-		set[p.ExprKey(a)] = true
+		k := p.ExprKey(a)
+		ts := a.Type().String()
+		if strings.HasSuffix(ts, "types.Coin") {
+			k += ".Amount" // a whole Coin stands for its amount
+		}
+		set[k] = true
 	}
 	var out []string
 	for k := range set {
